@@ -18,45 +18,36 @@
 (* hidden).                                                                                                            *)
 EXTENDS Integers, Sequences, FiniteSets, TLC
 
+\* (the type comments below are for Apalache, which proves NoStale for unbounded behaviours: spec/Apa_RSSTally.tla; TLC ignores them)
+\* @typeAlias: pair = {v: Int, cs: Int, f: Int};
+\* @typeAlias: entry = {v: Int, cs: Int, f: Int, n: Int};
+\* @type: $pair;
 None == [v |-> -1, cs |-> 0, f |-> 0]                   \* no pair found in the row
+\* @type: $pair => Bool;
 IsPair(p) == p.v >= 0
 \* a list entry: the pair as first seen (later sightings only count) and the number of LATER sightings
+\* @type: $pair => $entry;
 Entry(p) == [v |-> p.v, cs |-> p.cs, f |-> p.f, n |-> 0]
+\* @type: (Seq($entry), $pair) => Seq($entry);
 Tally(list, p) ==
   IF ~IsPair(p) THEN list
-  ELSE IF \E i \in 1..Len(list) : list[i].v = p.v
-       THEN LET i == CHOOSE k \in 1..Len(list) : list[k].v = p.v /\ \A j \in 1..k-1 : list[j].v # p.v
+  ELSE IF \E i \in DOMAIN list : list[i].v = p.v
+       THEN LET i == CHOOSE k \in DOMAIN list : list[k].v = p.v /\ \A j \in DOMAIN list : j < k => list[j].v # p.v
             IN [list EXCEPT ![i].n = @ + 1]
        ELSE Append(list, Entry(p))
 \* the check value two finder patterns announce (reader's arithmetic: values 8 and 72 are skipped by the encoder)
 Target(fl, fr) == LET t == 9 * fl + fr  a == IF t > 72 THEN t - 1 ELSE t IN IF a > 8 THEN a - 1 ELSE a
+\* @type: ($entry, $entry) => Bool;
 Verifies(l, r) == (l.cs + 16 * r.cs) % 79 = Target(l.f, r.f)
 \* the answer of DecodeRow on the tallied lists: <<i, j>> (indices) or <<0, 0>>
+\* @type: (Seq($entry), Seq($entry)) => <<Int, Int>>;
 Answer(lefts, rights) ==
-  LET ok == {ij \in (1..Len(lefts)) \X (1..Len(rights)) :
+  LET ok == {ij \in (DOMAIN lefts) \X (DOMAIN rights) :
                lefts[ij[1]].n > 1 /\ rights[ij[2]].n > 1 /\ Verifies(lefts[ij[1]], rights[ij[2]])}
   IN IF ok = {} THEN <<0, 0>>
      ELSE CHOOSE ij \in ok : \A kl \in ok : ij[1] < kl[1] \/ (ij[1] = kl[1] /\ ij[2] <= kl[2])
 \* one DecodeRow call: new lists and the answer
+\* @type: (Seq($entry), Seq($entry), $pair, $pair) => {lefts: Seq($entry), rights: Seq($entry), ans: <<Int, Int>>};
 Step(lefts, rights, l, r) ==
   LET nl == Tally(lefts, l)  nr == Tally(rights, r)  a == Answer(nl, nr) IN [lefts |-> nl, rights |-> nr, ans |-> a]
-
-(* ------------------------------------------------------------------ the 13-digit text of an answer *)
-\* V = 4537077 * lv + rv in base 10^4 limbs (TLC's integers are 32 bit); lv, rv < 4537077
-Limbs(lv, rv) ==
-  LET a == lv \div 10000  b == lv % 10000  c == 453  d == 7077
-      r1 == rv \div 10000  r0 == rv % 10000
-      t0 == b * d + r0
-      t1 == a * d + b * c + r1 + (t0 \div 10000)
-      t2 == a * c + (t1 \div 10000)
-  IN <<t2 \div 10000, t2 % 10000, t1 % 10000, t0 % 10000>>          \* most significant first
-Dig4(x) == <<x \div 1000, (x \div 100) % 10, (x \div 10) % 10, x % 10>>
-\* decimal digits, at least 13 of them (leading zeros kept up to 13 places, further leading zeros dropped)
-RECURSIVE DropZeros(_, _)
-DropZeros(s, keep) == IF Len(s) > keep /\ s[1] = 0 THEN DropZeros(Tail(s), keep) ELSE s
-ValueDigits(lv, rv) == LET m == Limbs(lv, rv) IN DropZeros(Dig4(m[1]) \o Dig4(m[2]) \o Dig4(m[3]) \o Dig4(m[4]), 13)
-RECURSIVE SumW(_, _)
-SumW(ds, i) == IF i > 13 THEN 0 ELSE ds[i] * (IF i % 2 = 1 THEN 3 ELSE 1) + SumW(ds, i + 1)
-\* the reader's text: the digits followed by the check digit over the first 13 of them
-AnswerText(l, r) == LET ds == ValueDigits(l.v, r.v) IN Append(ds, (10 - (SumW(ds, 1) % 10)) % 10)
 =============================================================================
